@@ -468,7 +468,7 @@ model for its language is available, the context can be built, the script decode
 machine run on (script · selected arguments) under the remaining budget satisfies the ledger's
 success rule with cost `c`.  Every other case is an `Err`. -/
 theorem redeemer_ok_iff (s : Stages ρ σ δ κ π μ) (r : ρ) (b c : ExBudget) :
-    evalRedeemer .fixed s r b = .ok c ↔
+    evalRedeemer .fixed .fixed s r b = .ok c ↔
       ∃ lang script datum cm ctx prog,
         s.findScript r = .ok ((lang, script), datum) ∧ s.costModel lang = .ok cm ∧
         s.context lang r datum = .ok ctx ∧ s.decode script = .ok prog ∧
@@ -508,8 +508,8 @@ theorem redeemer_ok_iff (s : Stages ρ σ δ κ π μ) (r : ρ) (b c : ExBudget)
             rw [hc', this, h6]
 
 /-- a missing script, datum or resolved input makes the redeemer — hence the simulation — fail -/
-theorem missing_fails (crit : Criterion) (s : Stages ρ σ δ κ π μ) (r : ρ) (b : ExBudget) (e : TxErr μ)
-    (h : s.findScript r = .error e) : evalRedeemer crit s r b = .error e := by
+theorem missing_fails (cj cb : Criterion) (s : Stages ρ σ δ κ π μ) (r : ρ) (b : ExBudget) (e : TxErr μ)
+    (h : s.findScript r = .error e) : evalRedeemer cj cb s r b = .error e := by
   simp [evalRedeemer, h]
 
 end redeemer
